@@ -124,7 +124,7 @@ def _create_files(  # noqa: C901, PLR0912, PLR0913
         # not report it either), so what is at such a path afterwards need not
         # be the entry's data.
         failed: set[str] = set()
-        if state and isinstance(fs, LocalFileSystem):
+        if (state or update_meta) and isinstance(fs, LocalFileSystem):
             failed.update(p for p in dest_paths if fs.exists(p))
 
         def _onerror(src_path, dest_path, exc, _failed=failed):
@@ -163,9 +163,12 @@ def _create_files(  # noqa: C901, PLR0912, PLR0913
             else:
                 desc = f"Updating meta for new files in '{path}'"
                 cb = TqdmCallback(desc=desc, unit="file")
+            # NOTE: the meta of a path that could not be (or was not) created is
+            # not the entry's: update() would carry the entry's hash over to it.
+            created = [(e, p) for e, p in zip(entries, dest_paths) if p not in failed]
             with cb:
-                infos = fs.info(list(dest_paths), callback=cb, batch_size=jobs)
-                for entry, info in zip(entries, infos):
+                infos = fs.info([p for _, p in created], callback=cb, batch_size=jobs)
+                for (entry, _), info in zip(created, infos):
                     entry.meta = Meta.from_info(info, fs.protocol)
                     index.add(entry)
 
